@@ -12,6 +12,11 @@ pub fn core_mapfile(emitter: &RootEmitter, game: Game, language: LanguageKey) ->
     crate::core_mapfiles::core_mapfile(emitter, game, language)
 }
 
+/// Record that a compiler pass starts (event `{"ev": "pass", "name": ..}`); see [`trace`].
+pub fn pass(name: &'static str) {
+    trace::emit(|| serde_json::json!({"ev": "pass", "name": name}));
+}
+
 /// Thread-local event sink.  Nothing is recorded unless a harness calls [`trace::install`].
 pub mod trace {
     use std::cell::RefCell;
